@@ -675,3 +675,892 @@ Lemma dispatch_no_worker_fixed_run :
     run c06_f (c06_allowed [0]) true md f13a_choices_fixed (init [10; 20; 30] 2) = Some s /\
     pc s = RDone /\ got s = [31; 61; 91] /\ ran s = [10; 20; 30] /\ pend s = [].
 Proof. intros md. destruct md; eexists; vm_compute; repeat split; reflexivity. Qed.
+
+
+(* ======================================================================================
+   Jobs may fail: proofs about the extended protocol of Model/Dispatch.v (estep).
+   For every number of workers, rank set, task list, [fails] predicate, send mode and schedule.
+   No axioms. *)
+Section DispatchEP.
+Context {T R : Type}.
+Context (f : T -> R) (fails : T -> bool).
+Context (allowed : nat -> bool).
+Context (md : mode).
+
+Local Notation msg := (Dispatch.msg T).
+Local Notation eworker := (eworker T R).
+Local Notation est := (est T R).
+Local Notation res := (res T R).
+Local Notation job := (job f fails).
+Local Notation einit := (@einit T R).
+
+Lemma ensum_upd (g : eworker -> nat) i w w' l :
+  nth_error l i = Some w ->
+  nsum (map g (upd i w' l)) + g w = nsum (map g l) + g w'.
+Proof.
+  intros H. pose proof (nth_error_split' _ _ H) as E.
+  rewrite E at 2. unfold upd. rewrite !map_app, !nsum_app. simpl. lia.
+Qed.
+
+Lemma ewm_def (w : eworker) :
+  ewm w = 3 * nsum (map is_task (einb w)) + 2 * length (eoutb w) + nsum (map is_eoq (einb w)).
+Proof. reflexivity. Qed.
+
+Ltac euse_upd :=
+  match goal with
+  | Hn : nth_error ?l ?i = Some ?w |- context [upd ?i ?w' ?l] =>
+      let Hlt := fresh "Hlt" in let Hs := fresh "Hs" in
+      pose proof (@nth_error_lt _ l i w Hn) as Hlt;
+      pose proof (@ensum_upd ewm i w w' l Hn) as Hs;
+      try rewrite (@upd_length _ i w' l Hlt);
+      rewrite (ewm_def w'), (ewm_def w) in Hs; cbn [einb eoutb] in Hs;
+      repeat match goal with Hx : eoutb w = _ |- _ => rewrite Hx in Hs end;
+      repeat match goal with Hx : einb w = _ |- _ => rewrite Hx in Hs end;
+      rewrite ?map_app, ?nsum_app, ?app_length in Hs;
+      cbn [map nsum is_task is_eoq length] in Hs
+  end.
+
+(* ---------- (a) termination: for the repaired AND the pinned worker ---------- *)
+Section AnyWorker.
+Context (wcatch : bool).
+Local Notation estep := (estep f fails allowed wcatch md).
+Local Notation esteps := (esteps f fails allowed wcatch md).
+
+Theorem estep_decreases s s' : estep s s' -> emu s' < emu s.
+Proof.
+  intros H. inversion H; subst; unfold emu; cbn [epc epend ews pcw length];
+  try euse_upd; lia.
+Qed.
+
+Theorem edispatch_terminates k s s' : esteps k s s' -> k + emu s' <= emu s.
+Proof.
+  induction 1 as [s|k s s1 s2 Hs _ IH]; [lia|].
+  pose proof (estep_decreases Hs). lia.
+Qed.
+
+Theorem edispatch_step_wf : well_founded (fun s' s : est => estep s s').
+Proof.
+  apply (well_founded_lt_compat _ (fun s : est => emu s)). intros x y H. apply estep_decreases. exact H.
+Qed.
+
+(* once the root has received an error it hands out nothing more and keeps that error *)
+Lemma eerr_frozen s s' e :
+  estep s s' -> eerr s = Some e -> eerr s' = Some e /\ epend s' = epend s /\ egot s' = egot s.
+Proof.
+  intros H He. inversion H; subst; cbn [eerr epend egot] in *; try discriminate; auto.
+Qed.
+End AnyWorker.
+
+(* ---------- the repaired worker (wcatch = true): invariant ---------- *)
+Local Notation estep := (estep f fails allowed true md).
+Local Notation ereach := (ereach f fails allowed true md).
+
+Inductive eshape : eworker -> Prop :=
+| esh_idle : eshape (@mkEW T R [] [] false 0)
+| esh_task t : eshape (mkEW [Task t] [] false 0)
+| esh_res y : eshape (mkEW [] [y] false 0)
+| esh_eoq : eshape (mkEW [EOQ] [] false 0)
+| esh_fin : eshape (mkEW [] [] true 1).
+
+Definition eidle (w : eworker) : Prop := w = mkEW [] [] false 0.
+Definition ebusy (w : eworker) : nat := nsum (map is_task (einb w)) + length (eoutb w).
+Definition eintasks (w : eworker) : list T :=
+  flat_map (fun m => match m with Task t => [t] | EOQ => [] end) (einb w).
+Definition eserved (k : nat) (l : list eworker) : Prop :=
+  forall j w, nth_error l j = Some w -> (k <= j -> eidle w) /\ (j < k -> ~ eidle w).
+
+Definition epc_inv (s : est) : Prop :=
+  match epc s with
+  | RInit k a => k <= length (ews s) /\ a = nsum (map ebusy (ews s)) /\ eserved k (ews s) /\ eerr s = None
+  | RLoop a => a = nsum (map ebusy (ews s)) /\ eserved (length (ews s)) (ews s)
+  | RBar | RDone => nsum (map ebusy (ews s)) = 0 /\ eserved (length (ews s)) (ews s)
+                 /\ (eerr s = None -> epend s = [])
+                 /\ (epc s = RDone -> forallb efin (ews s) = true /\ eout s = repeat (eerr s) (S (length (ews s))))
+  end.
+
+(* h = the tasks handed out so far (to a worker or run by the root); d = the results the root
+   received and did not yield (the first error and everything after it) *)
+Definition EInv (tasks : list T) (s : est) : Prop :=
+  Forall eshape (ews s)
+  /\ (exists h, tasks = h ++ epend s /\ Permutation h (flat_map eintasks (ews s) ++ eran s))
+  /\ (exists d, Permutation (map job (eran s)) (map (@Ok T R) (egot s) ++ flat_map eoutb (ews s) ++ d)
+                /\ (eerr s = None -> d = []))
+  /\ (forall t, eerr s = Some t -> fails t = true /\ In t (eran s))
+  /\ epc_inv s.
+
+Lemma ensum_busy_repeat n : nsum (map ebusy (repeat (@mkEW T R [] [] false 0) n)) = 0.
+Proof. induction n; simpl; auto. Qed.
+
+Lemma EInv_init tasks n : EInv tasks (einit tasks n).
+Proof.
+  unfold EInv, Dispatch.einit, epc_inv; cbn [ews epend eran egot epc eerr eout].
+  assert (E1 : flat_map eintasks (repeat (@mkEW T R [] [] false 0) n) = []) by (induction n; simpl; auto).
+  assert (E2 : flat_map eoutb (repeat (@mkEW T R [] [] false 0) n) = []) by (induction n; simpl; auto).
+  split; [|split; [|split; [|split]]].
+  - apply Forall_forall. intros w Hw. apply repeat_spec in Hw. subst. constructor.
+  - exists []. rewrite E1. split; [reflexivity|constructor].
+  - exists []. rewrite E2. split; [constructor|auto].
+  - intros t Ht. discriminate.
+  - split; [lia|]. split; [symmetry; apply ensum_busy_repeat|]. split; [|reflexivity].
+    intros j w Hj. split.
+    + intros _. apply nth_error_In in Hj. apply repeat_spec in Hj. exact Hj.
+    + intros Hlt. lia.
+Qed.
+
+Lemma ensum_busy_mid l1 w l2 : nsum (map ebusy (l1 ++ w :: l2)) = nsum (map ebusy l1) + ebusy w + nsum (map ebusy l2).
+Proof. rewrite map_app, nsum_app. simpl. lia. Qed.
+Lemma efm_mid B (g : eworker -> list B) l1 w l2 :
+  flat_map g (l1 ++ w :: l2) = flat_map g l1 ++ g w ++ flat_map g l2.
+Proof. rewrite flat_map_app. reflexivity. Qed.
+
+Ltac eperm_solve :=
+  repeat match goal with
+  | |- context [?x :: ?l] => lazymatch l with nil => fail | _ => rewrite (cons_app x l) end
+  end; aac_reflexivity.
+
+Ltac ebusy_eval :=
+  repeat match goal with
+  | |- context [ebusy (mkEW ?a ?b ?c ?d)] =>
+      let v := eval cbv in (ebusy (mkEW a b c d)) in change (ebusy (mkEW a b c d)) with v
+  | H : context [ebusy (mkEW ?a ?b ?c ?d)] |- _ =>
+      let v := eval cbv in (ebusy (mkEW a b c d)) in change (ebusy (mkEW a b c d)) with v in H
+  end.
+
+Ltac esplit_ws Hn w' :=
+  let l1 := fresh "l1" in let l2 := fresh "l2" in
+  let E := fresh "E" in let E' := fresh "E'" in let Hl := fresh "Hl" in
+  destruct (@upd_split _ _ _ _ w' Hn) as (l1 & l2 & E & E' & Hl); rewrite E' in *; clear E'; subst.
+
+Lemma eserved_upd k l1 w w' l2 :
+  eserved k (l1 ++ w :: l2) -> ~ eidle w' -> length l1 < k -> eserved k (l1 ++ w' :: l2).
+Proof.
+  intros Hs Hni Hlt j y Hy. destruct (nth_mid _ _ _ _ Hy) as [[-> ->]|[Hne Hall]].
+  - split; [lia | auto].
+  - apply (Hs j y). apply Hall.
+Qed.
+
+Lemma eserved_next l1 w w' l2 :
+  eserved (length l1) (l1 ++ w :: l2) -> ~ eidle w' -> eserved (S (length l1)) (l1 ++ w' :: l2).
+Proof.
+  intros Hs Hni j y Hy. destruct (nth_mid _ _ _ _ Hy) as [[-> ->]|[Hne Hall]].
+  - split; [lia | auto].
+  - destruct (Hs j y (Hall w)) as [Ha Hb]. split; intros; [apply Ha | apply Hb]; lia.
+Qed.
+
+Lemma eserved_at k l1 w l2 : eserved k (l1 ++ w :: l2) -> (k <= length l1 -> eidle w) /\ (length l1 < k -> ~ eidle w).
+Proof.
+  intros Hs. apply (Hs (length l1) w). rewrite nth_error_app2 by lia. rewrite Nat.sub_diag. reflexivity.
+Qed.
+
+Lemma job_ok t : fails t = false -> job t = Ok (f t).
+Proof. unfold Dispatch.job. intros ->. reflexivity. Qed.
+Lemma job_err t : fails t = true -> job t = Err t.
+Proof. unfold Dispatch.job. intros ->. reflexivity. Qed.
+Lemma job_err_inv t t' : job t = Err t' -> t = t' /\ fails t' = true.
+Proof. unfold Dispatch.job. destruct (fails t) eqn:E; intros H; [|discriminate]. injection H as <-. auto. Qed.
+Lemma job_ok_inv t x : job t = Ok x -> fails t = false /\ x = f t.
+Proof. unfold Dispatch.job. destruct (fails t) eqn:E; intros H; [discriminate|]. injection H as <-. auto. Qed.
+
+(* an error message in flight is the error of an executed, failing task *)
+Lemma err_in_flight (ran : list T) (rest : list res) t :
+  Permutation (map job ran) rest -> In (Err t) rest -> fails t = true /\ In t ran.
+Proof.
+  intros HP Hin. apply Permutation_sym in HP. pose proof (Permutation_in _ HP Hin) as Hm.
+  apply in_map_iff in Hm as (t0 & Hj & Ht0). apply job_err_inv in Hj as [-> Hf]. auto.
+Qed.
+
+Lemma forallb_nth A (p : A -> bool) l i x : forallb p l = true -> nth_error l i = Some x -> p x = true.
+Proof. intros Hf Hn. rewrite forallb_forall in Hf. apply Hf. eapply nth_error_In; eauto. Qed.
+
+Ltac eni := let Hi := fresh in intros Hi; red in Hi; discriminate Hi.
+
+
+Ltac split5 := split; [|split; [|split; [|split]]].
+Ltac ein_ran Herr := let t0 := fresh "t0" in let Ht0 := fresh "Ht0" in
+  intros t0 Ht0; destruct (Herr t0 Ht0); split; auto; apply in_or_app; auto.
+
+Lemma EInv_step tasks s s' : EInv tasks s -> estep s s' -> EInv tasks s'.
+Proof.
+  intros (Hsh & (h & Eh & Hp1) & (d & Hp2 & Hd) & Herr & Hpc) Hst. unfold EInv, epc_inv in *.
+  inversion Hst; subst; cbn [epc epend ews egot eran eerr eout] in *.
+  - (* init_task *)
+    destruct Hpc as (Hk & Ha & Hserved & _).
+    esplit_ws H0 (mkEW (einb w ++ [Task t]) (eoutb w) (efin w) (eoqn w)).
+    destruct (@eserved_at _ _ _ _ Hserved) as [Hid _]. specialize (Hid (le_n _)). red in Hid; subst w.
+    cbn [einb eoutb efin eoqn app] in *.
+    apply Forall_app in Hsh as [Hs1 Hs2]. inversion Hs2; subst.
+    rewrite !efm_mid, ?ensum_busy_mid, ?app_length in *. cbn [eintasks einb eoutb flat_map length] in *. ebusy_eval.
+    split5.
+    + apply Forall_app; split; auto. constructor; auto. constructor.
+    + exists (h ++ [t]). split; [rewrite <- app_assoc; reflexivity|].
+      etransitivity; [apply Permutation_app_tail; exact Hp1|]. eperm_solve.
+    + exists d. split; auto.
+    + exact Herr.
+    + split; [lia|]. split; [lia|]. split; [|reflexivity]. eapply (@eserved_next _ _ _ _ Hserved). eni.
+  - (* init_eoq *)
+    destruct Hpc as (Hk & Ha & Hserved & _).
+    esplit_ws H0 (mkEW (einb w ++ [EOQ]) (eoutb w) (efin w) (eoqn w)).
+    destruct (@eserved_at _ _ _ _ Hserved) as [Hid _]. specialize (Hid (le_n _)). red in Hid; subst w.
+    cbn [einb eoutb efin eoqn app] in *.
+    apply Forall_app in Hsh as [Hs1 Hs2]. inversion Hs2; subst.
+    rewrite !efm_mid, ?ensum_busy_mid, ?app_length in *. cbn [eintasks einb eoutb flat_map length] in *. ebusy_eval.
+    split5.
+    + apply Forall_app; split; auto. constructor; auto. constructor.
+    + exists h. split; auto.
+    + exists d. split; auto.
+    + exact Herr.
+    + split; [lia|]. split; [lia|]. split; [|reflexivity]. eapply (@eserved_next _ _ _ _ Hserved). eni.
+  - (* init_done *)
+    destruct Hpc as (Hk & Ha & Hserved & _). split5; eauto.
+  - (* recv_more *)
+    destruct Hpc as (Ha & Hserved).
+    esplit_ws H (mkEW (einb w ++ [Task t]) xs (efin w) (eoqn w)).
+    apply Forall_app in Hsh as [Hs1 Hs2]. inversion Hs2 as [|? ? Hw Hs3]; subst.
+    inversion Hw; subst; cbn [eoutb] in H0; try discriminate. injection H0 as -> <-.
+    cbn [einb eoutb efin eoqn app] in *.
+    rewrite !efm_mid, ?ensum_busy_mid, ?app_length in *. cbn [eintasks einb eoutb flat_map length] in *. ebusy_eval.
+    rewrite ?map_app in *. cbn [map] in *.
+    split5.
+    + apply Forall_app; split; auto. constructor; auto. constructor.
+    + exists (h ++ [t]). split; [rewrite <- app_assoc; reflexivity|].
+      etransitivity; [apply Permutation_app_tail; exact Hp1|]. eperm_solve.
+    + exists d. split; auto. etransitivity; [exact Hp2|]. eperm_solve.
+    + exact Herr.
+    + split; [lia|]. eapply (@eserved_upd _ _ _ _ _ Hserved). eni. simpl. lia.
+  - (* recv_last *)
+    destruct Hpc as (Ha & Hserved).
+    esplit_ws H (mkEW (einb w ++ [EOQ]) xs (efin w) (eoqn w)).
+    apply Forall_app in Hsh as [Hs1 Hs2]. inversion Hs2 as [|? ? Hw Hs3]; subst.
+    inversion Hw; subst; cbn [eoutb] in H0; try discriminate. injection H0 as -> <-.
+    cbn [einb eoutb efin eoqn app] in *.
+    rewrite !efm_mid, ?ensum_busy_mid, ?app_length in *. cbn [eintasks einb eoutb flat_map length] in *. ebusy_eval.
+    rewrite ?map_app in *. cbn [map] in *.
+    split5.
+    + apply Forall_app; split; auto. constructor; auto. constructor.
+    + exists h. split; auto.
+    + exists d. split; auto. etransitivity; [exact Hp2|]. eperm_solve.
+    + exact Herr.
+    + split; [lia|]. eapply (@eserved_upd _ _ _ _ _ Hserved). eni. simpl. lia.
+  - (* recv_err: the first error *)
+    destruct Hpc as (Ha & Hserved). rewrite (Hd eq_refl) in *. clear Hd.
+    esplit_ws H (mkEW (einb w ++ [EOQ]) xs (efin w) (eoqn w)).
+    apply Forall_app in Hsh as [Hs1 Hs2]. inversion Hs2 as [|? ? Hw Hs3]; subst.
+    inversion Hw; subst; cbn [eoutb] in H0; try discriminate. injection H0 as -> <-.
+    cbn [einb eoutb efin eoqn app] in *.
+    rewrite !efm_mid, ?ensum_busy_mid, ?app_length in *. cbn [eintasks einb eoutb flat_map length] in *. ebusy_eval.
+    split5.
+    + apply Forall_app; split; auto. constructor; auto. constructor.
+    + exists h. split; auto.
+    + exists [Err t']. split; [|intros; discriminate]. etransitivity; [exact Hp2|]. eperm_solve.
+    + intros t0 Ht0. injection Ht0 as <-.
+      eapply err_in_flight; [exact Hp2|]. apply in_or_app. right. apply in_or_app. left.
+      apply in_or_app. right. left. reflexivity.
+    + split; [lia|]. eapply (@eserved_upd _ _ _ _ _ Hserved). eni. simpl. lia.
+  - (* recv_drain: after the first error *)
+    destruct Hpc as (Ha & Hserved). clear Hd.
+    esplit_ws H (mkEW (einb w ++ [EOQ]) xs (efin w) (eoqn w)).
+    apply Forall_app in Hsh as [Hs1 Hs2]. inversion Hs2 as [|? ? Hw Hs3]; subst.
+    inversion Hw; subst; cbn [eoutb] in H0; try discriminate. injection H0 as -> <-.
+    cbn [einb eoutb efin eoqn app] in *.
+    rewrite !efm_mid, ?ensum_busy_mid, ?app_length in *. cbn [eintasks einb eoutb flat_map length] in *. ebusy_eval.
+    split5.
+    + apply Forall_app; split; auto. constructor; auto. constructor.
+    + exists h. split; auto.
+    + exists (d ++ [y]). split; [|intros; discriminate]. etransitivity; [exact Hp2|]. eperm_solve.
+    + exact Herr.
+    + split; [lia|]. eapply (@eserved_upd _ _ _ _ _ Hserved). eni. simpl. lia.
+  - (* exit *)
+    destruct Hpc as (Ha & Hserved). split5; eauto.
+    split; [auto|]. split; [auto|]. split; [auto|]. intros; discriminate.
+  - (* fallback: the root runs a pending task itself *)
+    destruct Hpc as (Ha & Hserved). rewrite (Hd eq_refl) in *. clear Hd.
+    rewrite ?map_app in *. cbn [map] in *. rewrite (job_ok H0).
+    split5; auto.
+    + exists (h ++ [t]). split; [rewrite <- app_assoc; reflexivity|].
+      etransitivity; [apply Permutation_app_tail; exact Hp1|]. eperm_solve.
+    + exists []. split; auto. etransitivity; [apply Permutation_app_tail; exact Hp2|]. eperm_solve.
+    + intros; discriminate.
+  - (* fallback_err: the job raises on the root *)
+    destruct Hpc as (Ha & Hserved). rewrite (Hd eq_refl) in *. clear Hd.
+    rewrite ?map_app in *. cbn [map] in *. rewrite (job_err H0).
+    split5; auto.
+    + exists (h ++ [t]). split; [rewrite <- app_assoc; reflexivity|].
+      etransitivity; [apply Permutation_app_tail; exact Hp1|]. eperm_solve.
+    + exists [Err t]. split; [|intros; discriminate]. etransitivity; [apply Permutation_app_tail; exact Hp2|]. eperm_solve.
+    + intros t0 Ht0. injection Ht0 as <-. split; auto. apply in_or_app. right. left. reflexivity.
+  - (* wtask *)
+    esplit_ws H (mkEW ms (eoutb w ++ [job t]) false (eoqn w)).
+    apply Forall_app in Hsh as [Hs1 Hs2]. inversion Hs2 as [|? ? Hw Hs3]; subst.
+    inversion Hw; subst; cbn [einb] in H1; try discriminate. injection H1 as -> <-.
+    cbn [einb eoutb efin eoqn app] in *.
+    rewrite !efm_mid, ?ensum_busy_mid, ?app_length in *. cbn [eintasks einb eoutb flat_map length] in *.
+    rewrite ?map_app in *. cbn [map] in *. ebusy_eval.
+    split5.
+    + apply Forall_app; split; auto. constructor; auto. constructor.
+    + exists h. split; auto. etransitivity; [exact Hp1|]. eperm_solve.
+    + exists d. split; auto. etransitivity; [apply Permutation_app_tail; exact Hp2|]. eperm_solve.
+    + ein_ran Herr.
+    + assert (Hni : forall x, ~ eidle (mkEW [] [x] false 0)) by (intros x0; eni).
+      destruct c as [k a| a | |].
+      * destruct Hpc as (Hk & Ha & Hserved & He). split; [|split; [|split]]; try lia; auto.
+        eapply (@eserved_upd _ _ _ _ _ Hserved); auto.
+        destruct (@eserved_at _ _ _ _ Hserved) as [Hid _].
+        destruct (Nat.lt_ge_cases (length l1) k) as [Hlt|Hge]; auto.
+        specialize (Hid Hge). red in Hid. discriminate Hid.
+      * destruct Hpc as (Ha & Hserved). split; try lia; auto.
+        eapply (@eserved_upd _ _ _ _ _ Hserved); auto. simpl. lia.
+      * destruct Hpc as (Ha & _). lia.
+      * destruct Hpc as (Ha & _). lia.
+  - (* wescape: not the repaired worker *)
+    discriminate.
+  - (* weoq *)
+    esplit_ws H (mkEW ms (eoutb w) true (S (eoqn w))).
+    apply Forall_app in Hsh as [Hs1 Hs2]. inversion Hs2 as [|? ? Hw Hs3]; subst.
+    inversion Hw; subst; cbn [einb] in H1; try discriminate. injection H1 as <-.
+    cbn [einb eoutb efin eoqn app] in *.
+    rewrite !efm_mid, ?ensum_busy_mid, ?app_length in *. cbn [eintasks einb eoutb flat_map length] in *. ebusy_eval.
+    split5.
+    + apply Forall_app; split; auto. constructor; auto. constructor.
+    + exists h. split; auto.
+    + exists d. split; auto.
+    + exact Herr.
+    + assert (Hni : ~ eidle (mkEW [] [] true 1)) by eni.
+      destruct c as [k a| a | |].
+      * destruct Hpc as (Hk & Ha & Hserved & He). split; [|split; [|split]]; try lia; auto.
+        eapply (@eserved_upd _ _ _ _ _ Hserved); auto.
+        destruct (@eserved_at _ _ _ _ Hserved) as [Hid _].
+        destruct (Nat.lt_ge_cases (length l1) k) as [Hlt|Hge]; auto.
+        specialize (Hid Hge). red in Hid. discriminate Hid.
+      * destruct Hpc as (Ha & Hserved). split; try lia; auto.
+        eapply (@eserved_upd _ _ _ _ _ Hserved); auto. simpl. lia.
+      * destruct Hpc as (Ha & Hserved & Hpe & _). split; [|split; [|split]]; try lia; auto.
+        -- eapply (@eserved_upd _ _ _ _ _ Hserved); auto. simpl. lia.
+        -- intros; discriminate.
+      * destruct Hpc as (_ & _ & _ & Hfin). destruct (Hfin eq_refl) as [Hf _].
+        rewrite forallb_app in Hf. simpl in Hf. rewrite andb_false_r in Hf. discriminate.
+  - (* bar: the closing broadcast *)
+    destruct Hpc as (Ha & Hserved & Hpe & _). split5; eauto.
+Qed.
+
+
+Lemma EInv_reach tasks n s : ereach (einit tasks n) s -> EInv tasks s.
+Proof. induction 1; [apply EInv_init | eapply EInv_step; eauto]. Qed.
+
+Lemma estep_length s s' : estep s s' -> length (ews s') = length (ews s).
+Proof.
+  intros H. inversion H; subst; cbn [ews]; auto;
+  match goal with Hn : nth_error ?l ?i = Some _ |- _ => apply upd_length; eapply nth_error_lt; exact Hn end.
+Qed.
+
+Lemma ereach_length tasks n s : ereach (einit tasks n) s -> length (ews s) = n.
+Proof.
+  induction 1; [apply repeat_length|]. rewrite (estep_length H0). exact IHereach.
+Qed.
+
+Lemma enoinb_false (l : list eworker) :
+  enoinb l = false -> exists i w, nth_error l i = Some w /\ einb w <> [].
+Proof.
+  induction l as [|w l IH]; simpl; [discriminate|].
+  destruct (einb w) eqn:E; simpl.
+  - intros H. destruct (IH H) as (i & w' & Hi & Hw'). exists (S i), w'. auto.
+  - intros _. exists 0, w. split; [reflexivity|]. rewrite E. discriminate.
+Qed.
+
+Lemma eroot_ok_of_noinb (l : list eworker) : enoinb l = true -> eroot_ok md l = true.
+Proof. intros H. destruct md; simpl; auto. Qed.
+
+(* ---------- (a) no deadlock, eager and synchronous sends, whatever fails ---------- *)
+Theorem edispatch_progress tasks n s :
+  ereach (einit tasks n) s -> epc s <> RDone -> exists s', estep s s'.
+Proof.
+  intros Hr Hne. destruct (EInv_reach Hr) as (Hsh & _ & _ & _ & Hinv).
+  destruct s as [c p l g r e o]. cbn [epc epend ews egot eran eerr eout] in *. unfold epc_inv in Hinv.
+  cbn [epc ews epend eerr eout] in Hinv.
+  destruct (enoinb l) eqn:Hnb.
+  2: { destruct (enoinb_false _ Hnb) as (i & w & Hi & Hwne).
+       assert (Hw : eshape w). { eapply Forall_forall in Hsh; eauto. eapply nth_error_In; eauto. }
+       inversion Hw; subst; cbn [einb] in Hwne; try congruence.
+       - eexists. eapply e_wtask; eauto; reflexivity.
+       - eexists. eapply e_weoq; eauto; reflexivity. }
+  pose proof (eroot_ok_of_noinb _ Hnb) as Hok.
+  destruct c as [k a|a| |]; [| | |congruence].
+  - destruct Hinv as (Hk & Ha & Hserved & ->).
+    destruct (Nat.eq_dec k (length l)) as [->|Hn].
+    + eexists. apply e_init_done; [reflexivity|exact Hok].
+    + destruct (nth_error l k) as [w|] eqn:Hw; [|apply nth_error_None in Hw; lia].
+      destruct p as [|t p].
+      * eexists. eapply e_init_eoq; eauto.
+      * destruct (allowed k) eqn:Hal.
+        -- eexists. eapply e_init_task; eauto.
+        -- eexists. eapply e_init_eoq; eauto.
+  - destruct Hinv as (Ha & Hserved).
+    destruct a as [|a].
+    { destruct e as [e|].
+      - eexists. apply e_exit; [exact Hok|intros; discriminate].
+      - destruct p as [|t p].
+        + eexists. apply e_exit; [exact Hok|reflexivity].
+        + destruct (fails t) eqn:Hf.
+          * eexists. apply e_fallback_err; [exact Hok|exact Hf].
+          * eexists. apply e_fallback; [exact Hok|exact Hf]. }
+    (* some worker is busy *)
+    assert (Hex : exists i w, nth_error l i = Some w /\ ebusy w <> 0).
+    { clear - Ha. revert a Ha. induction l as [|w l IH]; simpl; intros a Ha; [lia|].
+      destruct (ebusy w) eqn:Hb.
+      - destruct (IH a) as (i & w' & Hi & Hw'); [simpl in Ha; lia|]. exists (S i), w'. auto.
+      - exists 0, w. split; auto. lia. }
+    destruct Hex as (i & w & Hi & Hb).
+    assert (Hw : eshape w). { eapply Forall_forall in Hsh; eauto. eapply nth_error_In; eauto. }
+    inversion Hw; subst; cbv in Hb; try congruence.
+    + eexists. eapply e_wtask; eauto; reflexivity.
+    + destruct e as [e|].
+      * eexists. eapply e_recv_drain; eauto. reflexivity.
+      * destruct y as [x|t'].
+        -- destruct p as [|t' p].
+           ++ eexists. eapply e_recv_last; eauto. reflexivity.
+           ++ eexists. eapply e_recv_more; eauto. reflexivity.
+        -- eexists. eapply e_recv_err; eauto. reflexivity.
+  - destruct Hinv as (Hb & Hserved & Hpend & _).
+    destruct (forallb efin l) eqn:Hf.
+    + eexists. apply e_bar. exact Hf.
+    + assert (Hex : exists i w, nth_error l i = Some w /\ efin w = false).
+      { clear - Hf. induction l as [|w l IH]; simpl in *; [discriminate|].
+        destruct (efin w) eqn:Hw.
+        - destruct (IH Hf) as (i & w' & Hi & Hw'). exists (S i), w'. auto.
+        - exists 0, w. auto. }
+      destruct Hex as (i & w & Hi & Hfw).
+      assert (Hw : eshape w). { eapply Forall_forall in Hsh; eauto. eapply nth_error_In; eauto. }
+      assert (Hbw : ebusy w = 0).
+      { clear - Hb Hi. revert i Hi. induction l as [|x l IH]; intros [|i] Hi; simpl in *; try discriminate.
+        - injection Hi as ->. lia.
+        - eapply IH; eauto. lia. }
+      destruct (Hserved i w Hi) as [_ Hni]. specialize (Hni (nth_error_lt _ _ Hi)).
+      inversion Hw; subst; cbv in Hbw; try discriminate.
+      * exfalso. apply Hni. reflexivity.
+      * eexists. eapply e_weoq; eauto; reflexivity.
+Qed.
+
+Lemma ereach_trans s0 s1 s2 : ereach s0 s1 -> ereach s1 s2 -> ereach s0 s2.
+Proof. intros H1 H2. induction H2; [exact H1|]. eapply ereach_step; eauto. Qed.
+
+(* progress + termination: every partial run can be completed, all ranks pass the broadcast *)
+Theorem edispatch_reaches_done tasks n s :
+  ereach (einit tasks n) s -> exists s', ereach s s' /\ epc s' = RDone.
+Proof.
+  remember (emu s) as k eqn:Ek. revert s Ek.
+  induction k as [k IH] using lt_wf_ind. intros s Ek Hr.
+  destruct (epc s) eqn:Hpc.
+  4: { exists s. split; [constructor|exact Hpc]. }
+  all: destruct (@edispatch_progress tasks n s Hr) as [s1 Hs1]; [congruence|];
+       destruct (IH (emu s1) ltac:(subst k; eapply estep_decreases; exact Hs1) s1 eq_refl
+                    ltac:(eapply ereach_step; eauto)) as (s2 & Hr2 & Hd);
+       exists s2; split; [|exact Hd];
+       eapply ereach_trans; [eapply ereach_step; [constructor|exact Hs1]|exact Hr2].
+Qed.
+
+(* ---------- the end of a run ---------- *)
+Definition wdone (w : eworker) : Prop := w = mkEW [] [] true 1.
+
+Lemma efin_all_done l : Forall eshape l -> forallb efin l = true -> Forall wdone l.
+Proof.
+  induction 1 as [|w l Hw Hl IH]; simpl; auto. intros Hf. apply andb_true_iff in Hf as [Hfw Hfl].
+  constructor; auto. inversion Hw; subst; simpl in *; try discriminate. reflexivity.
+Qed.
+
+Lemma wdone_empty l : Forall wdone l -> flat_map eintasks l = [] /\ flat_map eoutb l = [].
+Proof.
+  induction 1 as [|w l Hw Hl [E1 E2]]; simpl; auto. red in Hw. subst w. simpl. auto.
+Qed.
+
+Lemma map_Ok_inj (a b : list R) : map (@Ok T R) a = map (@Ok T R) b -> a = b.
+Proof.
+  revert b; induction a as [|x a IH]; intros [|y b] H; simpl in *; try discriminate; auto.
+  injection H as -> H. f_equal. auto.
+Qed.
+
+Lemma Permutation_map_Ok_inv (a b : list R) : Permutation (map (@Ok T R) a) (map (@Ok T R) b) -> Permutation a b.
+Proof.
+  intros H. apply Permutation_map_inv in H as (l3 & E & HP). apply map_Ok_inj in E. subst l3.
+  apply Permutation_sym. exact HP.
+Qed.
+
+Section AtDone.
+Context (tasks : list T) (n : nat) (s : est).
+Context (Hr : ereach (einit tasks n) s).
+Context (Hdone : epc s = RDone).
+
+Lemma edone_facts :
+  Forall wdone (ews s) /\ eout s = repeat (eerr s) (S n) /\ (eerr s = None -> epend s = [])
+  /\ (exists h, tasks = h ++ epend s /\ Permutation h (eran s))
+  /\ (exists d, Permutation (map job (eran s)) (map (@Ok T R) (egot s) ++ d) /\ (eerr s = None -> d = []))
+  /\ (forall t, eerr s = Some t -> fails t = true /\ In t (eran s)).
+Proof.
+  destruct (EInv_reach Hr) as (Hsh & (h & Eh & Hp1) & (d & Hp2 & Hd) & Herr & Hpc).
+  unfold epc_inv in Hpc. rewrite Hdone in Hpc. destruct Hpc as (_ & _ & Hpe & Hfin).
+  destruct (Hfin eq_refl) as [Hf Ho].
+  pose proof (efin_all_done Hsh Hf) as Hall. destruct (wdone_empty Hall) as [E1 E2].
+  rewrite E1 in Hp1. rewrite E2 in Hp2. simpl in Hp1, Hp2.
+  rewrite (ereach_length Hr) in Ho.
+  split; [exact Hall|]. split; [exact Ho|]. split; [exact Hpe|].
+  split; [exists h; auto|]. split; [exists d; auto|]. exact Herr.
+Qed.
+
+(* (b) every worker has received exactly one sentinel, holds no message and is out of its loop *)
+Theorem edispatch_workers_end : length (ews s) = n /\ Forall wdone (ews s).
+Proof. split; [apply (ereach_length Hr)|apply edone_facts]. Qed.
+
+(* (c) every task is executed at most once; the tasks handed out (all but the suffix that is
+   still pending - nothing is handed out after the first error, eerr_frozen) exactly once *)
+Theorem edispatch_at_most_once :
+  exists h, tasks = h ++ epend s /\ Permutation h (eran s).
+Proof. apply edone_facts. Qed.
+
+(* (d) the error flag is set iff some executed task fails; it is the error of an executed
+   failing task; every rank leaves the broadcast with the root's flag: all raise or none *)
+Theorem edispatch_error_iff :
+  (eerr s <> None <-> exists t, In t (eran s) /\ fails t = true)
+  /\ (forall t, eerr s = Some t -> fails t = true /\ In t (eran s))
+  /\ eout s = repeat (eerr s) (S n).
+Proof.
+  destruct edone_facts as (_ & Ho & _ & _ & (d & Hp2 & Hd) & Herr).
+  split; [|split; auto]. split.
+  - destruct (eerr s) as [t|] eqn:E; [|congruence]. intros _. exists t. destruct (Herr t eq_refl). auto.
+  - intros (t & Hin & Hf) Hnone. rewrite (Hd Hnone), app_nil_r in Hp2.
+    assert (Hm : In (Err t) (map job (eran s))).
+    { apply in_map_iff. exists t. split; auto. apply job_err. exact Hf. }
+    pose proof (Permutation_in _ Hp2 Hm) as Hm'. apply in_map_iff in Hm' as (x & Hx & _). discriminate.
+Qed.
+
+Corollary edispatch_all_ranks_same r1 r2 o1 o2 :
+  nth_error (eout s) r1 = Some o1 -> nth_error (eout s) r2 = Some o2 -> o1 = eerr s /\ o2 = eerr s.
+Proof.
+  destruct edispatch_error_iff as (_ & _ & ->). intros H1 H2.
+  apply nth_error_In in H1, H2. apply repeat_spec in H1, H2. auto.
+Qed.
+
+(* what the root yielded are results of distinct executed tasks that did not fail *)
+Theorem edispatch_yielded_sound :
+  exists d, Permutation (map job (eran s)) (map (@Ok T R) (egot s) ++ d).
+Proof. destruct edone_facts as (_ & _ & _ & _ & (d & Hp2 & _) & _). eauto. Qed.
+
+(* (e) a run that ends without the error flag executed every task exactly once and the root
+   yielded exactly map f tasks - the statement of the error-free theorem *)
+Theorem edispatch_no_error_result :
+  eerr s = None -> Permutation tasks (eran s) /\ Permutation (map f tasks) (egot s).
+Proof.
+  intros Hnone. destruct edone_facts as (_ & _ & Hpe & (h & Eh & Hp1) & (d & Hp2 & Hd) & _).
+  rewrite (Hpe Hnone), app_nil_r in Eh. subst h. rewrite (Hd Hnone), app_nil_r in Hp2.
+  split; auto.
+  assert (Hnf : forall t, In t (eran s) -> fails t = false).
+  { intros t Hin. destruct (fails t) eqn:Hf; auto. exfalso.
+    destruct edispatch_error_iff as ([_ Hx] & _). apply Hx; eauto. }
+  assert (E : map job (eran s) = map (@Ok T R) (map f (eran s))).
+  { rewrite map_map. apply map_ext_in. intros t Hin. apply job_ok. auto. }
+  rewrite E in Hp2. apply Permutation_map_Ok_inv in Hp2.
+  etransitivity; [apply Permutation_map; exact Hp1|exact Hp2].
+Qed.
+
+Corollary edispatch_no_failing_task :
+  (forall t, In t tasks -> fails t = false) ->
+  eerr s = None /\ eout s = repeat None (S n) /\ Permutation tasks (eran s) /\ Permutation (map f tasks) (egot s).
+Proof.
+  intros Hnf. assert (Hnone : eerr s = None).
+  { destruct (eerr s) as [t|] eqn:E; auto. exfalso.
+    destruct edone_facts as (_ & _ & _ & (h & Eh & Hp1) & _ & Herr).
+    destruct (Herr t E) as [Hf Hin]. apply Permutation_sym in Hp1. pose proof (Permutation_in _ Hp1 Hin) as Hh.
+    rewrite (Hnf t) in Hf; [discriminate|]. rewrite Eh. apply in_or_app. auto. }
+  destruct edispatch_error_iff as (_ & _ & Ho). rewrite Hnone in Ho.
+  destruct (edispatch_no_error_result Hnone). auto.
+Qed.
+End AtDone.
+
+
+(* ---------- root fallback: no worker rank allowed (max_workers = 1) ---------- *)
+(* the root runs the tasks itself, in order; the first failing task raises, the rest is not
+   run; then the broadcast: the run is the single-process run [seqrun] *)
+Definition equiet (w : eworker) : Prop := eoutb w = [] /\ forall t, ~ In (Task t) (einb w).
+Definition EInv0 (tasks : list T) (s : est) : Prop :=
+  Forall equiet (ews s)
+  /\ match epc s with RInit _ a => a = 0 | RLoop a => a = 0 | _ => True end
+  /\ match eerr s with
+     | None => seqrun f fails (eran s) (egot s) (epend s) = seqrun f fails [] [] tasks
+     | Some t => (eran s, egot s, Some t, epend s) = seqrun f fails [] [] tasks
+     end.
+
+Lemma eForall_upd (P : eworker -> Prop) i (w w' : eworker) l :
+  nth_error l i = Some w -> Forall P l -> P w' -> Forall P (upd i w' l).
+Proof.
+  intros Hn Hl Hw'. destruct (@upd_split _ _ _ _ w' Hn) as (l1 & l2 & E & E' & _).
+  rewrite E'. rewrite E in Hl. apply Forall_app in Hl as [H1 H2]. inversion H2; subst.
+  apply Forall_app; split; auto.
+Qed.
+
+Lemma eForall_nth (P : eworker -> Prop) i (w : eworker) l : nth_error l i = Some w -> Forall P l -> P w.
+Proof. intros Hn Hl. eapply Forall_forall in Hl; eauto. eapply nth_error_In; eauto. Qed.
+
+Lemma EInv0_step tasks s s' :
+  (forall k, allowed k = false) -> EInv0 tasks s -> estep s s' -> EInv0 tasks s'.
+Proof.
+  intros Hna (Hq & Hpc & Hseq) Hst. unfold EInv0 in *.
+  inversion Hst; subst; cbn [epc epend ews egot eran eerr eout] in *; try discriminate.
+  - rewrite Hna in H. discriminate.
+  - repeat split; auto. eapply eForall_upd; eauto.
+    destruct (eForall_nth _ H0 Hq) as [Ho Hi]. split; cbn [einb eoutb]; auto.
+    intros t Hin. apply in_app_or in Hin as [Hin|[Hin|[]]]; [eapply Hi; eauto|discriminate].
+  - repeat split; auto.
+  - repeat split; auto.
+  - split; [auto|]. split; [auto|]. rewrite <- Hseq. simpl. rewrite H0. reflexivity.
+  - split; [auto|]. split; [auto|]. rewrite <- Hseq. simpl. rewrite H0. reflexivity.
+  - exfalso. destruct (eForall_nth _ H Hq) as [_ Hi]. apply (Hi t). rewrite H1. left. reflexivity.
+  - split; [|split; auto]. eapply eForall_upd; eauto.
+    destruct (eForall_nth _ H Hq) as [Ho Hi]. split; cbn [einb eoutb]; auto.
+    intros t Hin. apply (Hi t). rewrite H1. right. exact Hin.
+  - repeat split; auto.
+Qed.
+
+Theorem edispatch_root_fallback tasks n s :
+  (forall k, allowed k = false) -> ereach (einit tasks n) s -> epc s = RDone ->
+  (eran s, egot s, eerr s, epend s) = seqrun f fails [] [] tasks /\ eout s = repeat (eerr s) (S n).
+Proof.
+  intros Hna Hr Hd.
+  assert (H : EInv0 tasks s).
+  { clear Hd. induction Hr; [|eapply EInv0_step; eauto].
+    unfold EInv0, Dispatch.einit; cbn [epc epend ews egot eran eerr]. repeat split; auto.
+    apply Forall_forall. intros w Hw. apply repeat_spec in Hw. subst. split; cbn [einb eoutb]; auto. }
+  destruct H as (_ & _ & Hseq). destruct (edone_facts Hr Hd) as (_ & Ho & Hpe & _).
+  split; auto. destruct (eerr s) as [t|] eqn:E; auto.
+  rewrite <- Hseq. rewrite (Hpe eq_refl). reflexivity.
+Qed.
+
+End DispatchEP.
+
+(* ---------- the executable step is the relation (repaired and pinned worker) ---------- *)
+Section EStepWith.
+Context {T R : Type}.
+Context (f : T -> R) (fails : T -> bool) (allowed : nat -> bool) (wcatch : bool) (md : mode).
+Local Notation estep := (estep f fails allowed wcatch md).
+Local Notation estep_with := (estep_with f fails allowed wcatch md).
+Local Notation ereach := (ereach f fails allowed wcatch md).
+
+Ltac edm :=
+  match goal with
+  | H : context [match ?x with _ => _ end] |- _ => destruct x eqn:?; try discriminate
+  end.
+
+Lemma estep_with_sound c s s' : estep_with c s = Some s' -> estep s s'.
+Proof.
+  destruct s as [c0 p l g r e o]. unfold Dispatch.estep_with, eset; cbn [epc epend ews egot eran eerr eout]. intros H.
+  destruct c; repeat edm; injection H as <-;
+  repeat match goal with H : _ && _ = true |- _ => apply andb_true_iff in H as [? ?] end;
+  repeat match goal with H : (_ =? _) = true |- _ => apply Nat.eqb_eq in H; subst end.
+  - eapply e_init_task; eauto.
+  - eapply e_init_eoq; eauto.
+    match goal with H : _ || _ = true |- _ => apply orb_true_iff in H; destruct H as [Hx|Hx] end.
+    + left. apply negb_true_iff. exact Hx.
+    + right. apply is_nil_true. exact Hx.
+  - eapply e_init_done; eauto.
+  - eapply e_recv_more; eauto.
+  - eapply e_recv_last; eauto.
+  - eapply e_recv_err; eauto.
+  - eapply e_recv_drain; eauto.
+  - eapply e_fallback; eauto. apply negb_true_iff. assumption.
+  - eapply e_fallback_err; eauto.
+  - eapply e_exit; eauto. intros; discriminate.
+  - eapply e_exit; eauto. intros _. apply is_nil_true. assumption.
+  - eapply e_wtask; eauto.
+    match goal with H : _ || _ = true |- _ => apply orb_true_iff in H; destruct H as [Hx|Hx] end.
+    + left. exact Hx.
+    + right. apply negb_true_iff. exact Hx.
+  - eapply e_wescape; eauto. apply negb_true_iff. assumption.
+  - eapply e_weoq; eauto.
+  - eapply e_bar; eauto.
+Qed.
+
+Lemma estep_with_complete s s' : estep s s' -> exists c, estep_with c s = Some s'.
+Proof.
+  intros H. inversion H; subst.
+  - exists (EInitTask k). unfold Dispatch.estep_with, eset; cbn [epc epend ews egot eran eerr eout].
+    rewrite H1, Nat.eqb_refl, H0, H2. reflexivity.
+  - exists (EInitEoq k). unfold Dispatch.estep_with, eset; cbn [epc epend ews egot eran eerr eout].
+    rewrite H1, Nat.eqb_refl, H2.
+    destruct H0 as [-> | ->]; [reflexivity|]. rewrite orb_true_r. reflexivity.
+  - exists EInitDone. unfold Dispatch.estep_with, eset; cbn [epc epend ews egot eran eerr eout].
+    rewrite Nat.eqb_refl, H1. reflexivity.
+  - exists (ERecvMore i). unfold Dispatch.estep_with, eset; cbn [epc epend ews egot eran eerr eout].
+    rewrite H0, H1, H2. reflexivity.
+  - exists (ERecvLast i). unfold Dispatch.estep_with, eset; cbn [epc epend ews egot eran eerr eout].
+    rewrite H0, H1, H2. reflexivity.
+  - exists (ERecvErr i). unfold Dispatch.estep_with, eset; cbn [epc epend ews egot eran eerr eout].
+    rewrite H0, H1, H2. reflexivity.
+  - exists (ERecvDrain i). unfold Dispatch.estep_with, eset; cbn [epc epend ews egot eran eerr eout].
+    rewrite H0, H1, H2. reflexivity.
+  - exists EExit. unfold Dispatch.estep_with, eset; cbn [epc epend ews egot eran eerr eout].
+    rewrite H0. destruct e; [reflexivity|]. rewrite (H1 eq_refl). reflexivity.
+  - exists EFallback. unfold Dispatch.estep_with, eset; cbn [epc epend ews egot eran eerr eout].
+    rewrite H0, H1. reflexivity.
+  - exists EFallbackErr. unfold Dispatch.estep_with, eset; cbn [epc epend ews egot eran eerr eout].
+    rewrite H0, H1. reflexivity.
+  - exists (EWTask i). unfold Dispatch.estep_with, eset; cbn [epc epend ews egot eran eerr eout].
+    rewrite H0, H1, H2. destruct H3 as [-> | ->]; [reflexivity|]. rewrite orb_true_r. reflexivity.
+  - exists (EWEscape i). unfold Dispatch.estep_with, eset; cbn [epc epend ews egot eran eerr eout].
+    rewrite H0, H1, H2, H4. reflexivity.
+  - exists (EWEoq i). unfold Dispatch.estep_with, eset; cbn [epc epend ews egot eran eerr eout].
+    rewrite H0, H1, H2. reflexivity.
+  - exists EBar. unfold Dispatch.estep_with, eset; cbn [epc epend ews egot eran eerr eout]. rewrite H0. reflexivity.
+Qed.
+
+Lemma erun_sound cs s s' : erun f fails allowed wcatch md cs s = Some s' -> ereach s s'.
+Proof.
+  revert s. induction cs as [|c cs IH]; simpl; intros s H.
+  - injection H as <-. constructor.
+  - destruct (estep_with c s) as [s1|] eqn:E; [|discriminate].
+    assert (Hs : estep s s1) by (eapply estep_with_sound; exact E).
+    specialize (IH _ H). clear - Hs IH. induction IH; [eapply ereach_step; [constructor|exact Hs]|eapply ereach_step; eauto].
+Qed.
+
+(* a choice with a worker index outside the world is never enabled; hence the boolean test
+   [enone_enabled] decides that NO step is possible *)
+Lemma estep_with_oob c s :
+  ~ In c (echoices (length (ews s))) -> estep_with c s = None.
+Proof.
+  intros Hnin.
+  assert (Hidx : forall i c,
+             In c [EInitTask i; EInitEoq i; ERecvMore i; ERecvLast i; ERecvErr i; ERecvDrain i; EWTask i; EWEscape i; EWEoq i] ->
+             ~ In c (echoices (length (ews s))) -> nth_error (ews s) i = None).
+  { intros i c0 Hin Hn. apply nth_error_None. destruct (Nat.lt_ge_cases i (length (ews s))) as [Hlt|]; auto.
+    exfalso. apply Hn. unfold echoices. apply in_or_app. right. apply in_flat_map. exists i. split; auto.
+    apply in_seq. lia. }
+  unfold Dispatch.estep_with.
+  destruct c;
+    try (exfalso; apply Hnin; unfold echoices; apply in_or_app; left; simpl; auto 8; fail);
+    match goal with
+    | |- context [nth_error (ews s) ?i] =>
+        let Hx := fresh in
+        assert (Hx : nth_error (ews s) i = None) by (eapply Hidx; [|exact Hnin]; simpl; auto 12);
+        rewrite Hx
+    end;
+    repeat match goal with |- context [match ?x with _ => _ end] => destruct x; try reflexivity end;
+    try reflexivity.
+Qed.
+
+Lemma enone_enabled_stuck s :
+  epc s <> RDone -> enone_enabled f fails allowed wcatch md s = true -> estuck f fails allowed wcatch md s.
+Proof.
+  intros Hpc Hn. split; auto. intros s' Hst. apply estep_with_complete in Hst as [c Hc].
+  unfold enone_enabled in Hn. rewrite forallb_forall in Hn.
+  destruct (in_dec (fun a b : echoice => ltac:(decide equality; apply Nat.eq_dec) : {a = b} + {a <> b}) c (echoices (length (ews s)))) as [Hin|Hnin].
+  - specialize (Hn c Hin). rewrite Hc in Hn. discriminate.
+  - rewrite (estep_with_oob _ Hnin) in Hc. discriminate.
+Qed.
+End EStepWith.
+
+(* ---------- the error-free protocol is the special case fails = (fun _ => false) ---------- *)
+Section Embed.
+Context {T R : Type}.
+Context (f : T -> R) (allowed : nat -> bool) (wcatch : bool) (md : mode).
+Local Notation nofail := (fun _ : T => false).
+
+Lemma embW_upd i (x : worker T R) l : map embW (upd i x l) = upd i (embW x) (map embW l).
+Proof. unfold upd. rewrite map_app, firstn_map, skipn_map. reflexivity. Qed.
+
+Lemma eroot_ok_emb (l : list (worker T R)) : eroot_ok md (map embW l) = root_ok md l.
+Proof.
+  destruct md; simpl; auto. unfold enoinb, noinb. induction l as [|w l IH]; simpl; auto.
+  rewrite IH. destruct (inb w); reflexivity.
+Qed.
+
+Lemma efin_emb (l : list (worker T R)) : forallb (@efin T R) (map embW l) = forallb (@fin T R) l.
+Proof. induction l as [|w l IH]; simpl; auto. rewrite IH. reflexivity. Qed.
+
+Lemma nth_emb (l : list (worker T R)) i : nth_error (map embW l) i = option_map embW (nth_error l i).
+Proof. apply nth_error_map. Qed.
+
+(* the extended executable step on embedded states, with the embedded choice, IS the old step
+   (root fallback on): same enabledness, same successor *)
+Ltac emb_dm :=
+  match goal with
+  | |- context [option_map embW (nth_error ?l ?i)] => destruct (nth_error l i) eqn:?; cbn [option_map]
+  | |- context [match map _ (outb ?w) with _ => _ end] => destruct (outb w) eqn:?; cbn [map]
+  | |- context [match ?x with _ => _ end] => destruct x eqn:?
+  end;
+  cbn [embW einb eoutb efin eoqn inb outb fin negb orb andb is_done Dispatch.job option_map];
+  rewrite ?orb_true_r, ?andb_true_r; try reflexivity; try discriminate.
+
+Ltac emb_leaf :=
+  unfold embed; cbn [pc pend ws got ran is_done option_map]; rewrite ?embW_upd; unfold embW; cbn [inb outb fin];
+  rewrite ?map_app; cbn [map];
+  repeat match goal with H : fin _ = _ |- _ => rewrite H end;
+  rewrite ?upd_length by (eapply nth_error_lt; eassumption); rewrite ?map_length; try reflexivity.
+
+Theorem estep_with_embed c (s : st T R) :
+  estep_with f nofail allowed wcatch md (lift c) (embed s)
+  = option_map embed (step_with f allowed true md c s).
+Proof.
+  destruct s as [c0 p l g r]. destruct c0 as [k0 a0|a0| |].
+  all: unfold Dispatch.estep_with, Dispatch.step_with, embed, eset, lift;
+    cbn [epc epend ews egot eran eerr eout pc pend ws got ran].
+  all: destruct c; rewrite ?nth_emb, ?eroot_ok_emb, ?efin_emb, ?map_length; repeat emb_dm; emb_leaf.
+Qed.
+
+(* so a replayed log accepted by the old model is accepted by the extended one, with the
+   embedded final state *)
+Corollary erun_embed cs (s : st T R) :
+  erun f nofail allowed wcatch md (map lift cs) (embed s)
+  = option_map embed (run f allowed true md cs s).
+Proof.
+  revert s. induction cs as [|c cs IH]; intros s; simpl; auto.
+  rewrite estep_with_embed. destruct (step_with f allowed true md c s) as [s1|]; simpl; auto.
+Qed.
+
+Lemma embed_init tasks n : embed (@init T R tasks n) = einit tasks n.
+Proof.
+  unfold embed, init, einit; cbn [pc pend ws got ran is_done]. f_equal.
+  induction n; simpl; auto. f_equal. exact IHn.
+Qed.
+End Embed.
+
+(* the error-free theorem as a corollary of the extended one: a finished run of the extended
+   protocol with a job that never fails executed every task exactly once, the root yielded
+   map f tasks, and no rank raises *)
+Corollary edispatch_exactly_once_total_nofail :
+  forall (T R : Type) (f : T -> R) allowed md tasks n (s : est T R),
+  ereach f (fun _ => false) allowed true md (einit tasks n) s -> epc s = RDone ->
+  eerr s = None /\ eout s = repeat None (S n) /\ Permutation tasks (eran s) /\ Permutation (map f tasks) (egot s).
+Proof. intros. eapply edispatch_no_failing_task; eauto. Qed.
+
+(* ---------- (f) the pinned worker: a failing job leaves the root waiting forever ---------- *)
+(* world size 3, tasks 10 11 12 13, the job fails on 11.  Worker 2 gets 11, the exception
+   escapes, it leaves without sending; worker 1 works off the rest and gets its sentinel; the
+   root still counts one active worker and waits in recv(ANY_SOURCE): nothing is enabled, in
+   both send modes (finding F23 group C, repaired by 32238ed) *)
+Definition f23c_choices : list echoice :=
+  [EInitTask 0; EWTask 0; EInitTask 1; EWEscape 1; EInitDone; ERecvMore 0; EWTask 0; ERecvMore 0; EWTask 0;
+   ERecvLast 0; EWEoq 0].
+
+Theorem old_worker_job_error_stuck :
+  forall md, exists s : est nat nat,
+    ereach c06_f (c06_fails [11]) (c06_allowed [0; 1; 2]) false md (einit [10; 11; 12; 13] 2) s /\
+    estuck c06_f (c06_fails [11]) (c06_allowed [0; 1; 2]) false md s /\
+    epc s = RLoop 1 /\ eran s = [10; 11; 12; 13] /\ egot s = [31; 37; 40] /\ eerr s = None /\
+    Forall (fun w => einb w = [] /\ eoutb w = []) (ews s).
+Proof.
+  intros md.
+  destruct (erun c06_f (c06_fails [11]) (c06_allowed [0; 1; 2]) false md f23c_choices (einit [10; 11; 12; 13] 2)) as [s|] eqn:E;
+    [|destruct md; vm_compute in E; discriminate].
+  exists s. pose proof (erun_sound _ _ _ _ _ _ _ E) as Hr. split; [exact Hr|].
+  destruct md; vm_compute in E; injection E as <-;
+    (split; [apply enone_enabled_stuck; [discriminate|vm_compute; reflexivity]|]);
+    cbn [epc eran egot eerr ews]; repeat split; auto.
+Qed.
+
+(* the same world and the same matching order with the repaired worker: the error comes back,
+   the root drains worker 1, every rank raises the error of task 11; task 13 is never run *)
+Definition f23c_choices_fixed : list echoice :=
+  [EInitTask 0; EWTask 0; EInitTask 1; EWTask 1; EInitDone; ERecvMore 0; EWTask 0; ERecvErr 1; EWEoq 1;
+   ERecvDrain 0; EWEoq 0; EExit; EBar].
+
+Lemma new_worker_job_error_run :
+  forall md, exists s : est nat nat,
+    erun c06_f (c06_fails [11]) (c06_allowed [0; 1; 2]) true md f23c_choices_fixed (einit [10; 11; 12; 13] 2) = Some s /\
+    epc s = RDone /\ egot s = [31] /\ eran s = [10; 11; 12] /\ epend s = [13] /\ eerr s = Some 11 /\
+    eout s = [Some 11; Some 11; Some 11].
+Proof. intros md. destruct md; eexists; vm_compute; repeat split; reflexivity. Qed.
